@@ -225,7 +225,7 @@ def case_to_coq(c):
         coq_list([rspan(r) for r in (c["read"] or [])]))
 
 
-HEADER = ("From Coq Require Import List ZArith NArith Bool String Ascii Uint63.\nFrom Qryn Require Import model.Spans model.SpansChunk model.SpansWire model.SpansStore model.SpansJson model.SpansWireX model.SpansWireY model.SpansZone.\n"
+HEADER = ("From Coq Require Import List ZArith NArith Bool String Ascii Uint63.\nFrom Qryn Require Import model.Spans model.SpansChunk model.SpansWire model.SpansStore model.SpansJson model.SpansWireX model.SpansWireY model.SpansZone model.SpansSvc.\n"
           "Import ListNotations.\nOpen Scope string_scope.\nOpen Scope Z_scope.\n")
 
 
@@ -290,13 +290,15 @@ def eval_text(ck, name, cases_txt):
            "Definition XV := Eval vm_compute in xread_violations xcases.\nPrint XV.\n"
            "Definition ZM := Eval vm_compute in zone_mismatches zncases.\nPrint ZM.\n"
            "Definition ZD := Eval vm_compute in zone_local_explains zncases.\nPrint ZD.\n"
-           "Definition ZV := Eval vm_compute in zone_spec_violations zncases.\nPrint ZV.\n")
+           "Definition ZV := Eval vm_compute in zone_spec_violations zncases.\nPrint ZV.\n"
+           "Definition SV := Eval vm_compute in svc_violations cases.\nPrint SV.\n"
+           "Definition SO := Eval vm_compute in svc_counts cases.\nPrint SO.\n")
     rc, out = ck.coq_eval(name, txt)
     if rc != 0:
         return None, out
     flat = " ".join(out.split())
     res = {}
-    for nm in ("M", "V", "CM", "CV", "WM", "WR", "TM", "TI", "TV", "XV", "YV", "QM", "ZM", "ZD", "ZV"):
+    for nm in ("M", "V", "CM", "CV", "WM", "WR", "TM", "TI", "TV", "XV", "YV", "QM", "ZM", "ZD", "ZV", "SV", "SO"):
         m = re.search(r"(?<![A-Z])" + nm + r" = \[(.*?)\]\s*: list Z", flat)
         if not m:
             return None, out
@@ -491,7 +493,7 @@ def run_spans(ck):
                   "case ids: %s; %s" % ([c["id"] for c in changed[:10]], changed[0]["retry_diff"][:300] if changed else ""))
     cases = [c for c in cases if not c.get("panic")]
     byid = {c["id"]: c for c in cases}
-    tot = {"M": [], "V": [], "R": [], "CM": [], "CV": [], "WM": [], "WR": [], "TM": [], "TI": [], "TV": [], "XV": [], "YV": [], "QM": [], "ZM": [], "ZD": [], "ZV": []}
+    tot = {"M": [], "V": [], "R": [], "CM": [], "CV": [], "WM": [], "WR": [], "TM": [], "TI": [], "TV": [], "XV": [], "YV": [], "QM": [], "ZM": [], "ZD": [], "ZV": [], "SV": [], "SO": []}
     # Coq spends ~0.1 s per request elaborating the literal: shards are evaluated by parallel coqc processes
     shard = 100
     heavy = [c for c in cases if size_of(c) > 40000]           # the > 64 KiB / > 1 MiB requests: a shard each
@@ -506,7 +508,10 @@ def run_spans(ck):
             ck.obligation("span cases evaluated inside Coq", False, out[-1500:])
             return
         for key in tot:
-            tot[key] += res[key]
+            if key == "SO":
+                tot[key] = [a + b for a, b in zip(tot[key] or [0, 0, 0], res[key])]
+            else:
+                tot[key] += res[key]
     # a lone \uD800-\uDFFF escape in a Zipkin string: jx (write side) decodes U+FFFD, fastjson (read side) keeps the escape as text
     known_ids = set()
     sur = [c for c in cases if c.get("pay_tok_surrogate")]
@@ -514,7 +519,7 @@ def run_spans(ck):
         known_ids = {c["id"] for c in sur}
         ck.report_known("zipkin-lone-surrogate", "the tag-index value and the value read back differ for a string with an unpaired surrogate escape "
                         "(case ids %s: %s)" % (sorted(known_ids)[:5], sur[0]["pay_tok_diff"][:160]))
-    for key in ("M", "V", "TM", "TV"):
+    for key in ("M", "V", "TM", "TV", "SV"):
         tot[key] = [i for i in tot[key] if i not in known_ids]
     tot["R"] = [(i, q) for (i, q) in tot["R"] if i not in known_ids]
     mism, viol = tot["M"], tot["V"]
@@ -522,6 +527,23 @@ def run_spans(ck):
                   not mism, "mismatching case ids: %s; legacy-defect diagnosis (case, defect): %s" % (mism[:10], tot["R"][:10]))
     ck.obligation("spec oracle spec_ok accepts every observed request (one row per span, tag rows of span, read back)",
                   not viol, "violating case ids: %s" % viol[:10])
+    # ---- one service name on both sides of the store (model/SpansSvc.v; theorems read_service_is_row_service, model_meets_service_spec)
+    sv = tot["SV"]
+    s_in, s_out, s_diff = (tot["SO"] + [0, 0, 0])[:3]
+    ck.obligation("spec oracle on the service name: for every span inside SpansSvc.svc_guard (Zipkin: all; OTLP: the stored service.name attribute is a non-empty string "
+                  "and no attribute is named 'service') the name OutputQuery reports for the stored row = the service_name column of the trace row = the pushed span's "
+                  "service name (%d spans inside the domain; %d outside, of which %d with two DIFFERENT names on the implementation: service_names_differ_outside replayed)"
+                  % (s_in, s_out, s_diff), not sv, "violating case ids: %s" % sv[:10])
+    if sv:
+        w = min((byid[i] for i in sv), key=size_of)
+        names = [(r.get("svc"), (rd or {}).get("svc")) for r, rd in zip(w.get("spans") or [], w.get("read") or [])]
+        ck.violation({"property": PID, "kind": "the service name the read path reports for a stored span (the name the trace answer groups it under) is not the service_name "
+                                               "column of its trace row / the service name that was pushed",
+                      "case": slim(w), "service_name_column_vs_read_back": names[:8], "delivery": delivery_of(ck, w),
+                      "explanation": "svc_ok (model/SpansSvc.v) rejects these observations of the real write/read path; proved of the model for every request "
+                                     "(model_meets_service_spec, read_service_is_row_service)",
+                      "replay": "harness spans --cases <file holding the 'case' object on one line> --out /dev/stdout"})
+    ck.extra["service_name_domain"] = {"spans_inside_svc_guard": s_in, "spans_outside": s_out, "outside_with_two_different_names_observed": s_diff}
     # ---- the zone of the writer process (model/SpansZone.v): every request was parsed and its blocks built with time.Local = FixedZone(tz)
     zm, zd, zv = tot["ZM"], set(tot["ZD"]), tot["ZV"]
     zones = {}
@@ -907,6 +929,9 @@ def run_replay(ck):
                       "diagnosis": [QUIRKS[q] for (_, q) in res["R"]]})
     elif res["M"]:
         ck.violation({"property": PID, "kind": "model/implementation disagree (replayed)", "case": cs[0]}, no_input=True)
+    ck.obligation("replay: the service name read back = the service_name column = the pushed service name (svc_ok)", not res["SV"], "svc_ok rejects the observations")
+    if res["SV"] and not res["V"]:
+        ck.violation({"property": PID, "kind": "the service name the read path reports is not the service_name column of the trace row (replayed)", "case": cs[0]})
 
 
 def run_utf8(ck):
